@@ -39,6 +39,11 @@ def cases(tier, seed):
                     yield ("elevate", K, p, U, t)
             if p >= 1:
                 yield ("reduce", K, p, U, b["small_alphabet_n"])
+    # high result degrees (7, 8) on small knot vectors: Bezier and one simple / one double interior knot
+    a, bb, cands = al.ALPHABETS["K0"]
+    for p, t in ((4, 3), (5, 2), (6, 1), (6, 2)) if tier == "quick" else ((4, 3), (4, 4), (5, 2), (5, 3), (6, 1), (6, 2), (3, 4), (2, 5)):
+        for inner in ([], [cands[1]], [cands[2], cands[2]]):
+            yield ("high", "K0", p, tuple([a] * (p + 1) + inner + [bb] * (p + 1)), t)
 
 
 def describe(case):
@@ -212,6 +217,20 @@ def run_case(case, res):
     kind, K, p, U, t = case
     U = list(U)
     n = len(U) - p - 1
+    if kind == "high":
+        gen = al.generic_points(n)
+        c = check_elevate(res, U, p, gen, None, "frac", t, "method")
+        if c is not None:
+            U1, P1, W1 = lib.exact_curve(c)
+            check_reduce(res, U1, p + t, P1, W1, "frac", t, "default", "method", "elevate-reduce", (U, list(gen), None))
+        # the same elevation as a history of single steps on one object
+        res.transition()
+        c2 = lib.mk_curve(U, gen)
+        o = lib.outcome(lambda: [c2.degree_increase(1) for _ in range(t)])
+        if o[0] != "ok" or not lib.curve_pw(c2).same(rb.denote(U, gen, None, p)) or c2.degree != p + t:
+            res.violation("curve_changed", f"U={U}: {t} successive degree_increase(1) from degree {p} changed the curve ({o[:2]})",
+                          op="elevate", api="stepwise", rational=False, rep="frac", t=t, zero_knot=False)
+        return res.observe(sorted(res.outcomes.items()))
     gen, gen2, gw = al.generic_points(n), al.generic_points(n, 2), al.generic_weights(n)
     if kind == "elevate":
         for e in al.unit_vectors(n):
